@@ -6,6 +6,8 @@ import (
 	"go/token"
 	"go/types"
 	"math"
+	"os"
+	"strconv"
 	"strings"
 	"sync"
 
@@ -62,6 +64,11 @@ type nondetRec struct {
 
 var buildMu sync.Mutex
 
+var traceCalls = func() int {
+	n, _ := strconv.Atoi(os.Getenv("GOSYM_TRACECALLS"))
+	return n
+}()
+
 type Interp struct {
 	prog   *ssa.Program
 	h      *HarnessRun
@@ -93,6 +100,10 @@ type Interp struct {
 	noMerge   bool
 	sum       *sumState
 	noSum     int
+	initDepth int
+	wc        *workerCache
+	tmplMemo  map[any]any // template object -> instance in this path
+	instOf    map[any]any // instance in this path -> template object
 	digests    map[int][]*Term
 	digestApps []digestApp
 	uuids      []*Term
@@ -469,6 +480,13 @@ func (it *Interp) ensureInit(pkg *ssa.Package) {
 		return
 	}
 	it.pkgInit[pkg] = 1
+	if it.wc != nil {
+		if snap, ok := it.wc.snaps[pkg]; ok && snap != nil {
+			it.instantiateSnap(pkg, snap)
+			it.pkgInit[pkg] = 2
+			return
+		}
+	}
 	ensureBuilt(pkg)
 	initFn := pkg.Func("init")
 	if initFn == nil || len(initFn.Blocks) == 0 {
@@ -503,6 +521,8 @@ func (it *Interp) ensureInit(pkg *ssa.Package) {
 	}
 	saveTop := it.top
 	saveSteps := it.steps
+	it.initDepth++
+	defer func() { it.initDepth-- }()
 	func() {
 		defer func() {
 			if r := recover(); r != nil {
@@ -519,9 +539,271 @@ func (it *Interp) ensureInit(pkg *ssa.Package) {
 		it.top = fr
 		it.run(fr)
 	}()
+	if traceCalls > 0 {
+		fmt.Fprintf(os.Stderr, "INIT %s steps=%d\n", pkg.Pkg.Path(), it.steps-saveSteps)
+	}
 	it.top = saveTop
 	it.steps = saveSteps
 	it.pkgInit[pkg] = 2
+	if it.wc != nil {
+		if _, done := it.wc.snaps[pkg]; !done {
+			it.wc.snaps[pkg] = it.makeSnap(pkg)
+		}
+	}
+}
+
+// ---------------------------------------------------------------- package-init snapshots (per worker)
+
+// Package initialisers are deterministic and concrete, so their result is computed once per worker and
+// copied into every later path (preserving pointer identity across packages through template objects).
+type workerCache struct {
+	snaps map[*ssa.Package]*pkgSnap
+}
+
+type pkgSnap struct {
+	globals map[*ssa.Global]*Cell // template cells
+}
+
+type snapFail struct{}
+
+func (it *Interp) makeSnap(pkg *ssa.Package) (snap *pkgSnap) {
+	defer func() {
+		if r := recover(); r != nil {
+			if _, ok := r.(snapFail); ok {
+				snap = nil // not cacheable (symbolic content); re-run the initialiser on every path
+				return
+			}
+			panic(r)
+		}
+	}()
+	snap = &pkgSnap{globals: map[*ssa.Global]*Cell{}}
+	for _, m := range pkg.Members {
+		if g, ok := m.(*ssa.Global); ok {
+			if c, ok := it.globals[g]; ok {
+				snap.globals[g] = it.toTemplate(c).(*Cell)
+			}
+		}
+	}
+	return snap
+}
+
+// toTemplate returns the template counterpart of a path object (cell, map, channel), creating it if needed.
+func (it *Interp) toTemplate(obj any) any {
+	if t, ok := it.instOf[obj]; ok {
+		return t
+	}
+	switch x := obj.(type) {
+	case *Cell:
+		tc := &Cell{id: 0, typ: x.typ, tag: x.tag}
+		it.instOf[x] = tc
+		it.tmplMemo[tc] = x
+		tc.v = it.tmplValue(x.v)
+		return tc
+	case *MapObj:
+		tm := &MapObj{}
+		it.instOf[x] = tm
+		it.tmplMemo[tm] = x
+		for _, e := range x.entries {
+			tm.entries = append(tm.entries, mapEntry{it.tmplValue(e.k), it.tmplValue(e.v)})
+		}
+		return tm
+	case *ChanObj:
+		tcn := &ChanObj{cap: x.cap, closed: x.closed}
+		it.instOf[x] = tcn
+		it.tmplMemo[tcn] = x
+		for _, b := range x.buf {
+			tcn.buf = append(tcn.buf, it.tmplValue(b))
+		}
+		return tcn
+	}
+	panic("internal: toTemplate of unknown object")
+}
+
+func (it *Interp) tmplValue(v Value) Value {
+	switch x := v.(type) {
+	case nil:
+		return nil
+	case *Term:
+		if !x.IsConst() {
+			panic(snapFail{})
+		}
+		return x
+	case FloatV, ComplexV, Poison:
+		return v
+	case *StrV:
+		if x.isConc {
+			return x
+		}
+		panic(snapFail{})
+	case *StructV:
+		f := make([]Value, len(x.f))
+		for i := range f {
+			f[i] = it.tmplValue(x.f[i])
+		}
+		return &StructV{f}
+	case *ArrayV:
+		e := make([]Value, len(x.e))
+		for i := range e {
+			e[i] = it.tmplValue(x.e[i])
+		}
+		return &ArrayV{e}
+	case *Ptr:
+		if x.isNil() {
+			return x
+		}
+		if x.sym != nil {
+			panic(snapFail{})
+		}
+		return &Ptr{cell: it.toTemplate(x.cell).(*Cell), path: x.path}
+	case *SliceV:
+		if x.cell == nil {
+			return x
+		}
+		return &SliceV{cell: it.toTemplate(x.cell).(*Cell), off: x.off, len: x.len, cap: x.cap}
+	case *MapV:
+		if x.m == nil {
+			return x
+		}
+		return &MapV{m: it.toTemplate(x.m).(*MapObj)}
+	case *ChanV:
+		if x.ch == nil {
+			return x
+		}
+		return &ChanV{ch: it.toTemplate(x.ch).(*ChanObj)}
+	case *IfaceV:
+		if x.t == nil {
+			return x
+		}
+		return &IfaceV{t: x.t, v: it.tmplValue(x.v)}
+	case *FuncV:
+		if len(x.binds) == 0 {
+			return x
+		}
+		b := make([]Value, len(x.binds))
+		for i := range b {
+			b[i] = it.tmplValue(x.binds[i])
+		}
+		return &FuncV{fn: x.fn, binds: b, native: x.native}
+	case TupleV:
+		r := make(TupleV, len(x))
+		for i := range r {
+			r[i] = it.tmplValue(x[i])
+		}
+		return r
+	}
+	panic(snapFail{})
+}
+
+func (it *Interp) instantiateSnap(pkg *ssa.Package, snap *pkgSnap) {
+	for g, tc := range snap.globals {
+		if _, ok := it.globals[g]; ok {
+			continue
+		}
+		it.globals[g] = it.fromTemplate(tc).(*Cell)
+	}
+}
+
+func (it *Interp) fromTemplate(obj any) any {
+	if i, ok := it.tmplMemo[obj]; ok {
+		return i
+	}
+	switch x := obj.(type) {
+	case *Cell:
+		it.cellID++
+		nc := &Cell{id: it.cellID, typ: x.typ, tag: x.tag}
+		it.tmplMemo[x] = nc
+		it.instOf[nc] = x
+		nc.v = it.instValue(x.v)
+		return nc
+	case *MapObj:
+		it.cellID++
+		nm := &MapObj{id: it.cellID}
+		it.tmplMemo[x] = nm
+		it.instOf[nm] = x
+		for _, e := range x.entries {
+			nm.entries = append(nm.entries, mapEntry{it.instValue(e.k), it.instValue(e.v)})
+		}
+		return nm
+	case *ChanObj:
+		it.cellID++
+		nc := &ChanObj{cap: x.cap, closed: x.closed, id: it.cellID}
+		it.tmplMemo[x] = nc
+		it.instOf[nc] = x
+		for _, b := range x.buf {
+			nc.buf = append(nc.buf, it.instValue(b))
+		}
+		return nc
+	}
+	panic("internal: fromTemplate of unknown object")
+}
+
+func (it *Interp) instValue(v Value) Value {
+	switch x := v.(type) {
+	case nil:
+		return nil
+	case *Term:
+		if x.w == 0 {
+			return it.ts.Bool(x.cval == 1)
+		}
+		return it.ts.BV(x.cval, x.w)
+	case FloatV, ComplexV, Poison:
+		return v
+	case *StrV:
+		return x
+	case *StructV:
+		f := make([]Value, len(x.f))
+		for i := range f {
+			f[i] = it.instValue(x.f[i])
+		}
+		return &StructV{f}
+	case *ArrayV:
+		e := make([]Value, len(x.e))
+		for i := range e {
+			e[i] = it.instValue(x.e[i])
+		}
+		return &ArrayV{e}
+	case *Ptr:
+		if x.isNil() {
+			return x
+		}
+		return &Ptr{cell: it.fromTemplate(x.cell).(*Cell), path: x.path}
+	case *SliceV:
+		if x.cell == nil {
+			return x
+		}
+		return &SliceV{cell: it.fromTemplate(x.cell).(*Cell), off: x.off, len: x.len, cap: x.cap}
+	case *MapV:
+		if x.m == nil {
+			return x
+		}
+		return &MapV{m: it.fromTemplate(x.m).(*MapObj)}
+	case *ChanV:
+		if x.ch == nil {
+			return x
+		}
+		return &ChanV{ch: it.fromTemplate(x.ch).(*ChanObj)}
+	case *IfaceV:
+		if x.t == nil {
+			return x
+		}
+		return &IfaceV{t: x.t, v: it.instValue(x.v)}
+	case *FuncV:
+		if len(x.binds) == 0 {
+			return x
+		}
+		b := make([]Value, len(x.binds))
+		for i := range b {
+			b[i] = it.instValue(x.binds[i])
+		}
+		return &FuncV{fn: x.fn, binds: b, native: x.native}
+	case TupleV:
+		r := make(TupleV, len(x))
+		for i := range r {
+			r[i] = it.instValue(x[i])
+		}
+		return r
+	}
+	panic("internal: instValue of unknown value")
 }
 
 // poisonOrZero: struct/array globals that are initialised field-wise need a concrete skeleton, so
@@ -651,6 +933,9 @@ func (it *Interp) call(fn *ssa.Function, args []Value, binds []Value) (ret Value
 			n += len(b.Instrs)
 		}
 		it.funcs[name] = n
+	}
+	if traceCalls > 0 && it.depth <= traceCalls {
+		fmt.Fprintf(os.Stderr, "%*sCALL %s (steps=%d)\n", it.depth, "", name, it.steps)
 	}
 	fr := &frame{fn: fn, env: make(map[ssa.Value]Value, 16), visits: map[*ssa.BasicBlock]int{}, caller: it.top}
 	if len(args) != len(fn.Params) {
@@ -1831,8 +2116,22 @@ func (it *Interp) iterOrder(n int) []int {
 	for i := range id {
 		id[i] = i
 	}
-	if n <= 1 || it.mapOrder == 0 {
+	if n <= 1 || it.mapOrder == 0 || it.initDepth > 0 || it.spec > 0 || it.sum != nil {
 		return id
+	}
+	if fs := it.h.cfg.MapOrderFuncs; len(fs) > 0 {
+		ok := false
+		if it.top != nil {
+			name := it.top.fn.String()
+			for _, f := range fs {
+				if strings.Contains(name, f) {
+					ok = true
+				}
+			}
+		}
+		if !ok {
+			return id
+		}
 	}
 	switch {
 	case it.mapOrder == 1:
@@ -1846,18 +2145,26 @@ func (it *Interp) iterOrder(n int) []int {
 		perms := permutations(n)
 		return perms[it.freeChoice(len(perms))]
 	default:
-		k := it.freeChoice(2 * n)
-		rot := k % n
-		r := make([]int, n)
-		for i := range r {
-			r[i] = (i + rot) % n
-		}
-		if k >= n {
-			for i, j := 0, n-1; i < j; i, j = i+1, j-1 {
-				r[i], r[j] = r[j], r[i]
+		var orders [][]int
+		seen := map[string]bool{}
+		for k := 0; k < 2*n; k++ {
+			rot := k % n
+			r := make([]int, n)
+			for i := range r {
+				r[i] = (i + rot) % n
+			}
+			if k >= n {
+				for i, j := 0, n-1; i < j; i, j = i+1, j-1 {
+					r[i], r[j] = r[j], r[i]
+				}
+			}
+			key := fmt.Sprint(r)
+			if !seen[key] {
+				seen[key] = true
+				orders = append(orders, r)
 			}
 		}
-		return r
+		return orders[it.freeChoice(len(orders))]
 	}
 }
 
